@@ -117,7 +117,7 @@ Definition clock_tick : M bool :=
    A StoryError of a step is caught here and recorded; a panic propagates. *)
 Fixpoint continue_loop (fuel : nat) : M bool :=
   match fuel with
-  | O => fail InvalidState "VERIF: out of fuel"      (* model-side guard; H2 fuel ends the loop earlier *)
+  | O => panic "model:continue_loop:out of fuel"     (* model-side guard, unreachable: H2's step fuel ends the loop earlier *)
   | S f =>
       fun w =>
         match continue_single_step w with
